@@ -253,7 +253,11 @@ def _sparse_adder(wire_array_2, adder):
     for single_w_index in range(len(wire_array_2)):
         if len(wire_array_2[single_w_index]) == 2:  # Check if the two wire vectors overlap yet
             break
-        result.append(wire_array_2[single_w_index][0])
+        column = wire_array_2[single_w_index]
+        result.append(column[0] if column else pyrtl.Const(0, bitwidth=1))  # empty column
+    else:
+        # no column holds two wires, so there is nothing left to add
+        return pyrtl.concat_list(result)
 
     wires_to_zip = wire_array_2[single_w_index:]
     add_wires = tuple(itertools.zip_longest(*wires_to_zip, fillvalue=pyrtl.Const(0)))
